@@ -106,6 +106,11 @@ pub trait Prop {
     fn max_workers() -> usize {
         16
     }
+    /// resident-set limit (MiB) watched by the worker's watchdog: exceeding it during a case is
+    /// treated like a deadline hit ("grows without bound"); 0 = not watched
+    fn rss_limit_mb() -> u64 {
+        0
+    }
 }
 
 // ---------------------------------------------------------------------------------------------
@@ -185,8 +190,26 @@ pub fn fnv(bytes: &[u8]) -> u64 {
     h
 }
 
+static CUR_SUB: Mutex<String> = Mutex::new(String::new());
+/// batch cases publish the sub-case they are about to run (as the JSON of a stand-alone case):
+/// if the watchdog fires, that JSON becomes the replay file instead of the whole batch
+pub fn set_current_subcase(json: String) {
+    if let Ok(mut g) = CUR_SUB.lock() {
+        *g = json;
+    }
+}
 static CUR_CASE: AtomicU64 = AtomicU64::new(0);
 static CUR_START_MS: AtomicU64 = AtomicU64::new(u64::MAX);
+
+static RSS_LIMIT_MB: AtomicU64 = AtomicU64::new(0);
+
+fn rss_mb() -> u64 {
+    std::fs::read_to_string("/proc/self/statm")
+        .ok()
+        .and_then(|s| s.split_whitespace().nth(1).and_then(|p| p.parse::<u64>().ok()))
+        .map(|pages| pages * 4096 / (1 << 20))
+        .unwrap_or(0)
+}
 
 fn start_watchdog(
     deadline_s: u64,
@@ -202,8 +225,10 @@ fn start_watchdog(
             continue;
         }
         let now = t0.elapsed().as_millis() as u64;
+        let lim = RSS_LIMIT_MB.load(Ordering::Relaxed);
+        let blown = lim > 0 && rss_mb() > lim;
         // CUR_START_MS is relative to its own clock: we store elapsed of a shared Instant
-        if now.saturating_sub(st) > deadline_s * 1000 {
+        if blown || now.saturating_sub(st) > deadline_s * 1000 {
             let name = idx_names.lock().map(|g| g.clone()).unwrap_or_default();
             let code = on_hang(&name);
             let _ = std::io::stdout().flush();
@@ -305,10 +330,15 @@ pub fn worker<P: Prop>(a: &WorkerArgs) -> i32 {
     install_quiet_panic_hook();
     set_rlimit_as(12 << 30);
     let name = Arc::new(Mutex::new(String::new()));
+    RSS_LIMIT_MB.store(P::rss_limit_mb(), Ordering::Relaxed);
     start_watchdog(
         P::case_deadline_s(),
         name.clone(),
         Box::new(|n| {
+            let sub = CUR_SUB.lock().map(|g| g.clone()).unwrap_or_default();
+            if !sub.is_empty() {
+                println!("HANGSUB {}", sub.replace('\n', " "));
+            }
             println!("HANG {}", n);
             3
         }),
@@ -576,6 +606,7 @@ pub fn replay<P: Prop>(path: &str, quiet: bool, deadline_s: u64) -> i32 {
         }
     };
     let name = Arc::new(Mutex::new("replay".to_string()));
+    RSS_LIMIT_MB.store(P::rss_limit_mb(), Ordering::Relaxed);
     // quiet (machine) mode: a hang is exit 4 and the caller decides what it means; otherwise
     // it is a violation for termination properties and inconclusive (2) for the others
     let path2 = path.to_string();
@@ -630,6 +661,7 @@ struct Agg {
     notes: Vec<String>,
     fails: Vec<(u64, String, serde_json::Value)>, // shard, idx, {case,msg}
     hangs: Vec<(u64, String)>,
+    hang_subs: BTreeMap<u64, serde_json::Value>,
     crashes: Vec<(u64, String)>,
     done: u64,
 }
@@ -809,6 +841,10 @@ pub fn parent<P: Prop>(a: &ParentArgs) -> i32 {
                     let v: serde_json::Value =
                         serde_json::from_str(it.next().unwrap_or("null")).unwrap_or(serde_json::Value::Null);
                     g.fails.push((shard, idx, v));
+                } else if let Some(r) = line.strip_prefix("HANGSUB ") {
+                    if let Ok(v) = serde_json::from_str(r) {
+                        g.hang_subs.insert(shard, v);
+                    }
                 } else if let Some(r) = line.strip_prefix("HANG ") {
                     inflight = None;
                     finished = true;
@@ -860,7 +896,13 @@ pub fn parent<P: Prop>(a: &ParentArgs) -> i32 {
             shard,
             nshards,
         };
-        let case = match dump::<P>(&wa, &idx) {
+        let sub_case: Option<P::Case> = if was_hang {
+            g.hang_subs.get(&shard).and_then(|v| serde_json::from_value(v.clone()).ok())
+        } else {
+            None
+        };
+        let from_sub = sub_case.is_some();
+        let case = match sub_case.or_else(|| dump::<P>(&wa, &idx)) {
             Some(c) => c,
             None => {
                 inconclusive.push(format!("cannot regenerate case {} of shard {}", idx, shard));
@@ -908,7 +950,7 @@ pub fn parent<P: Prop>(a: &ParentArgs) -> i32 {
             println!("inconclusive hang kept at {}", keep);
             continue;
         }
-        let best = if idx.starts_with('G') {
+        let best = if idx.starts_with('G') && !from_sub {
             shrink_external::<P>(&wa, &idx, &work).unwrap_or(case)
         } else {
             case
@@ -936,6 +978,21 @@ pub fn parent<P: Prop>(a: &ParentArgs) -> i32 {
     }
     for s in g.subsamples.iter().take(6) {
         samples.push(s.clone());
+    }
+    if samples.is_empty() {
+        // no non-trivial case finished (e.g. every worker stopped at a failure): show what failed
+        for (_, _, v) in fails.iter().take(2) {
+            if let Some(c) = v.get("case") {
+                samples.push(c.clone());
+            }
+        }
+    }
+    if samples.is_empty() {
+        if let Some(c) = P::fixed_cases(a.tier).into_iter().next() {
+            samples.push(serde_json::to_value(&c).unwrap_or(serde_json::Value::Null));
+        } else if let Some(c) = dump::<P>(&WorkerArgs { tier: a.tier, seed: a.seed, shard: 0, nshards }, "G0") {
+            samples.push(serde_json::to_value(&c).unwrap_or(serde_json::Value::Null));
+        }
     }
     let distinct = g.nt_hashes.len() as u64 + g.nt_extra;
     let wall = t0.elapsed().as_secs_f64();
